@@ -1063,3 +1063,62 @@ def origins(g: pf.CFG, e: ast.AST, at: pf.Node, params: Set[str], depth: int = 8
         r, inner, how = p
         return origins(g, inner, at, params, depth - 1, worse(rel, r), via + ([f'`{pf.nsrc(e)[:120]}`'] if r != 'same' and not (via and pf.nsrc(e)[:60] in via[-1]) else []), decide)
     return [Origin(rel, e, at, False, via)]
+
+
+# ------------------------------------------------------------------------------------------------
+# 8. literal constants moved to module / class level
+# ------------------------------------------------------------------------------------------------
+
+def literal_constants(m: pf.Module, cls: Optional[str] = None) -> Dict[str, ast.Constant]:
+    """`NAME` (module level) and `self.NAME` / `cls.NAME` / `<cls>.NAME` (class level of `cls`) -> the str / bytes / int literal it is bound to, for names that are
+    assigned exactly once in the module (resp. class body), never declared `global` and never assigned as an attribute anywhere in the module."""
+    out: Dict[str, ast.Constant] = {}
+    globals_ = {n for x in ast.walk(m.tree) if isinstance(x, ast.Global) for n in x.names}
+    attr_stores = {x.attr for x in ast.walk(m.tree) if isinstance(x, ast.Attribute) and isinstance(x.ctx, (ast.Store, ast.Del))}
+
+    def scan(body: Sequence[ast.stmt], prefixes: Sequence[str]) -> None:
+        seen: Dict[str, List[ast.AST]] = {}
+        for st in body:
+            tgs = st.targets if isinstance(st, ast.Assign) else [st.target] if isinstance(st, (ast.AnnAssign, ast.AugAssign)) else []
+            for t in tgs:
+                for x in ast.walk(t):
+                    if isinstance(x, ast.Name):
+                        seen.setdefault(x.id, []).append(st)
+        for name, sts in seen.items():
+            st = sts[0]
+            v = st.value if isinstance(st, (ast.Assign, ast.AnnAssign)) else None
+            if len(sts) == 1 and isinstance(v, ast.Constant) and isinstance(v.value, (str, bytes, int)) and not isinstance(v.value, bool) \
+                    and (not isinstance(st, ast.Assign) or (len(st.targets) == 1 and isinstance(st.targets[0], ast.Name))):
+                for p in prefixes:
+                    if p == '' and name in globals_:
+                        continue
+                    if p != '' and name in attr_stores:
+                        continue
+                    out[p + name] = v
+    scan(m.tree.body, [''])
+    if cls is not None:
+        try:
+            c = m.cls(cls)
+        except AnalysisError:
+            c = None
+        if c is not None:
+            scan(c.body, ['self.', 'cls.', f'{cls}.'])
+    return out
+
+
+def subst_constants(node: ast.AST, consts: Dict[str, ast.Constant], shadowed: Iterable[str] = ()) -> ast.AST:
+    """Deep copy of node with loads of the given constant names (`NAME`, `self.NAME`) replaced by the literal.  `shadowed`: local names of the analysed function."""
+    shadowed = set(shadowed)
+
+    class _S(ast.NodeTransformer):
+        def visit_Name(self, n: ast.Name):
+            if isinstance(n.ctx, ast.Load) and n.id in consts and n.id not in shadowed:
+                return ast.copy_location(copy.deepcopy(consts[n.id]), n)
+            return n
+
+        def visit_Attribute(self, n: ast.Attribute):
+            d = pf.dotted(n)
+            if isinstance(n.ctx, ast.Load) and d is not None and d in consts and d.split('.')[0] not in shadowed - {'self', 'cls'}:
+                return ast.copy_location(copy.deepcopy(consts[d]), n)
+            return self.generic_visit(n)
+    return _S().visit(copy.deepcopy(node))
